@@ -88,13 +88,7 @@ def envOfDict (d : List (String × R)) : String → R := Generated.Aberration.lo
 
 /-! ## alias handling (three implementations) -/
 
-inductive Err | keyError | valueError | typeError
-  deriving DecidableEq, Repr
-
-/-- insertion-ordered dict assignment `d[k] = v` -/
-def dset : List (String × R) → String → R → List (String × R)
-  | [], k, v => [(k, v)]
-  | (a, x) :: rest, k, v => if a = k then (a, v) :: rest else (a, x) :: dset rest k v
+-- `Err` and `dset` live in Model/AberrationBase.lean (the translated alias loop bodies use them)
 
 def dget : List (String × R) → String → Option R
   | [], _ => none
